@@ -47,6 +47,7 @@ func iterDemand(k int, reduced bool, inputs [][]int, sources []isrcKind) func(x 
 				x.Tag("demands")
 			}
 		}
+		p.blindDrain(x, sk, data, outs)
 		observeInts(x, out)
 		if len(data) >= 2 && len(out) >= 1 && !eqInts(out, data) {
 			x.NonTrivial()
